@@ -526,7 +526,15 @@ func callBuiltin(caller *frame, callpos token.Pos, fn *ssa.Builtin, args []value
 		for i, v := range src {
 			cp[i] = copyVal(v)
 		}
-		return append(dst, cp...)
+		r := append(dst, cp...)
+		if len(dst) > 0 && &r[0] != &dst[0] {
+			// reallocated: the new array holds copies of the old elements
+			// (structs and arrays are reference-like in this representation)
+			for i := range dst {
+				r[i] = copyVal(dst[i])
+			}
+		}
+		return r
 
 	case "copy": // copy([]T, []T) int or copy([]byte, string) int
 		checkBad(args...)
